@@ -18,7 +18,11 @@ use tokio::io::{AsyncRead, AsyncWrite, ReadBuf};
 // ---------------------------------------------------------------------------------------------
 // I/O error kinds used by fault injection
 
-pub const KINDS: [io::ErrorKind; 9] = [
+pub const KINDS: [io::ErrorKind; 11] = [
+    // kinds a well-behaved async transport would express differently (Pending / retry) but which a
+    // reader may still hand out as plain errors: they must surface like any other kind
+    io::ErrorKind::WouldBlock,
+    io::ErrorKind::Interrupted,
     // an *error* of kind UnexpectedEof (as opposed to a clean close, F4): must surface as an I/O
     // error of that kind (which is_eof() then also recognises)
     io::ErrorKind::UnexpectedEof,
@@ -34,6 +38,17 @@ pub const KINDS: [io::ErrorKind; 9] = [
 
 pub fn kind_of(id: u8) -> io::ErrorKind {
     KINDS[id as usize % KINDS.len()]
+}
+
+/// Kind for a *write* fault: `Interrupted` is excluded there because `std::io::Write::write_all`
+/// legitimately retries it (that is fault kind F10, not an error to surface).
+pub fn write_kind_id(id: u8) -> u8 {
+    let id = id % KINDS.len() as u8;
+    if KINDS[id as usize] == io::ErrorKind::Interrupted {
+        (id + 1) % KINDS.len() as u8
+    } else {
+        id
+    }
 }
 
 pub fn kind_name(k: io::ErrorKind) -> String {
@@ -295,6 +310,8 @@ impl Core {
 thread_local! {
     /// reader fill style of the case being run (see `Case::reader_style`)
     pub static READER_STYLE: std::cell::Cell<u8> = const { std::cell::Cell::new(0) };
+    /// 1 = the simulated AsyncWrite advertises and implements vectored writes
+    pub static WRITER_STYLE: std::cell::Cell<u8> = const { std::cell::Cell::new(0) };
 }
 
 pub struct SimReader {
@@ -554,6 +571,23 @@ impl AsyncWrite for SimWriter {
     }
     fn poll_shutdown(self: Pin<&mut Self>, _cx: &mut Context<'_>) -> Poll<io::Result<()>> {
         Poll::Ready(Ok(()))
+    }
+    fn is_write_vectored(&self) -> bool {
+        WRITER_STYLE.with(|s| s.get()) == 1
+    }
+    /// Gathered write: the buffers are taken as one logical buffer, so a short write can end
+    /// anywhere inside any of them (what a socket with a nearly full send buffer does).
+    fn poll_write_vectored(
+        self: Pin<&mut Self>,
+        cx: &mut Context<'_>,
+        bufs: &[io::IoSlice<'_>],
+    ) -> Poll<io::Result<usize>> {
+        let mut all: Vec<u8> = Vec::new();
+        for b in bufs {
+            all.extend_from_slice(b);
+        }
+        let w = cx.waker().clone();
+        self.get_mut().step(&all, Some(&w))
     }
 }
 
